@@ -215,48 +215,63 @@ def rows(src, strip_comments):
 
 
 def quirks(src, strip_comments, fn_body):
-    """(perDb, rewatchKeeps, watchPurges) as the source has them, or a string saying what was not recognised.
+    """-> {"q": (perDb, rewatchKeeps, watchPurges), "recognised": bool, "notes": [what was not recognised]}.
+    Every switch is read on its own; a shape that is not one of the two known ones makes `recognised` false and the
+    switch takes its pessimistic value (false = the un-prescribed behaviour), so that the Lean side still elaborates,
+    the drivers build and the dynamic search runs — the table theorem `tree_watch_list_recognised` then refuses.
       perDb         `watched_keys: HashMap<(usize, Vec<u8>), u64>` and neither Server::handle_exec passes the connection's
                     `db_index` to `was_modified_since` nor handle_unwatch passes `conn.db_index` to `unregister_watch`
-                    (code as it is: `HashMap<Vec<u8>, u64>`, both use the connection's current database)
+                    (old code: `HashMap<Vec<u8>, u64>`, both use the connection's current database).  A mixture (keyed by
+                    (db, key) but one of the two sites uses the current database) is not recognised: perDb = false
       rewatchKeeps  handle_watch skips a key that is already in `watched_keys` (`.contains_key(`) before `register_watch`
-      watchPurges   StorageEngine::register_watch (engine.rs) drops a stored value whose deadline has passed before it
-                    registers: its body tests `is_expired()`, removes (`.data.remove(`) and marks (`mark_modified(`) ahead
-                    of `watch_tracker.register_watch(`; none of the three = false; anything in between is not recognised"""
+      watchPurges   an expired stored value is dropped (and marked) before the registration: the body of
+                    StorageEngine::register_watch ahead of `watch_tracker.register_watch(`, or `get_shard` which it calls
+                    first, tests `is_expired()`, removes (`.data.remove(`) and marks (`mark_modified(`); none of the three
+                    anywhere = false; anything in between is not recognised: false"""
+    notes = []
     t = strip_comments(src("storage/commands/transactions.rs"))
     sv = strip_comments(src("network/server.rs"))
     m = re.search(r"watched_keys\s*:\s*HashMap<\s*(\(\s*usize\s*,\s*Vec<u8>\s*\)|Vec<u8>)\s*,\s*u64\s*>", t)
     hw, hu, he = fn_body(t, "handle_watch"), fn_body(t, "handle_unwatch"), fn_body(sv, "handle_exec")
-    if not m or hw is None or hu is None or he is None:
-        return "watched_keys field / handle_watch / handle_unwatch / Server::handle_exec not found"
-    if "register_watch" not in hw or "unregister_watch" not in hu or "was_modified_since" not in he:
-        return "register_watch / unregister_watch / was_modified_since calls not found in the WATCH handlers"
-    keyed = m.group(1).startswith("(")
-    exec_cur = bool(re.search(r"was_modified_since\s*\(\s*db_index\b", he))
-    unw_cur = bool(re.search(r"unregister_watch\s*\(\s*conn\s*\.\s*db_index\b", hu))
-    if keyed and not exec_cur and not unw_cur:
-        per_db = True
-    elif not keyed and exec_cur and unw_cur:
-        per_db = False
+    per_db = False
+    if not m or hu is None or he is None or "unregister_watch" not in hu or "was_modified_since" not in he:
+        notes.append("watched_keys field / handle_unwatch / Server::handle_exec (with their unregister_watch / was_modified_since calls) not found")
     else:
-        return "watch list keyed by (db,key): %s, EXEC checks current db: %s, UNWATCH unregisters in current db: %s - not uniform" % (keyed, exec_cur, unw_cur)
-    i = hw.find("register_watch")
-    rewatch = bool(re.search(r"watched_keys\s*\.\s*contains_key\s*\(", hw[:i]))
+        keyed = m.group(1).startswith("(")
+        exec_cur = bool(re.search(r"was_modified_since\s*\(\s*(?:conn\s*\.\s*)?db_index\b", he))
+        unw_cur = bool(re.search(r"unregister_watch\s*\(\s*(?:conn\s*\.\s*)?db_index\b", hu))
+        if keyed and not exec_cur and not unw_cur:
+            per_db = True
+        elif not keyed and exec_cur and unw_cur:
+            per_db = False
+        else:
+            notes.append("watch list keyed by (db,key): %s, EXEC checks current db: %s, UNWATCH unregisters in current db: %s - not uniform" % (keyed, exec_cur, unw_cur))
+    rewatch = False
+    if hw is None or "register_watch" not in hw:
+        notes.append("handle_watch (with its register_watch call) not found")
+    else:
+        rewatch = bool(re.search(r"watched_keys\s*\.\s*contains_key\s*\(", hw[:hw.find("register_watch")]))
+    purges = False
     eng = strip_comments(src("storage/engine.rs"))
     block = impl_block(eng, r"\bimpl\s+StorageEngine\s*\{")
     rw = fn_body(block or "", "register_watch")
     if rw is None or "watch_tracker.register_watch(" not in rw:
-        return "StorageEngine::register_watch not found"
-    head = rw[:rw.find("watch_tracker.register_watch(")]
-    signs = [bool(re.search(r"\bis_expired\s*\(", head)), bool(re.search(r"\.data\s*\.\s*remove\s*\(", head)),
-             bool(re.search(r"\bmark_modified\s*\(", head))]
-    if all(signs):
-        purges = True
-    elif not any(signs):
-        purges = False
+        notes.append("StorageEngine::register_watch not found")
     else:
-        return "register_watch: expiry test / removal / mark before the registration: %s - not uniform" % signs
-    return per_db, rewatch, purges
+        def signs(text):
+            return [bool(re.search(r"\bis_expired\s*\(", text)), bool(re.search(r"\.data\s*\.\s*remove\s*\(", text)),
+                    bool(re.search(r"\bmark_modified\s*\(", text))]
+        head = rw[:rw.find("watch_tracker.register_watch(")]
+        s1 = signs(head)
+        gs = fn_body(block, "get_shard") if re.search(r"\bself\s*\.\s*get_shard\s*\(", head) else None
+        s2 = signs(gs) if gs is not None else [False, False, False]
+        if all(s1) or all(s2):
+            purges = True
+        elif not any(s1) and not any(s2):
+            purges = False
+        else:
+            notes.append("register_watch / get_shard: expiry test, removal, mark before the registration: %s / %s - not uniform" % (s1, s2))
+    return {"q": (per_db, rewatch, purges), "recognised": not notes, "notes": notes}
 
 
 def lean_str_list(xs):
@@ -285,9 +300,11 @@ def generate(src, strip_comments, fn_body, header):
     lines.append("    `perDb` = entries are keyed by (database, key) and checked / unregistered there;")
     lines.append("    `rewatchKeeps` = WATCH of an already watched key keeps the first baseline;")
     lines.append("    `watchPurges` = StorageEngine::register_watch drops (and marks) an expired stored value first. -/")
-    if isinstance(q, str):
-        lines.append('def watchQ : Ferrous.Watch.Q := extraction_failed "%s"' % q.replace('"', "'"))
-    else:
-        lines.append("def watchQ : Ferrous.Watch.Q := ⟨%s, %s, %s⟩" % tuple("true" if x else "false" for x in q))
+    lines.append("def watchQ : Ferrous.Watch.Q := ⟨%s, %s, %s⟩" % tuple("true" if x else "false" for x in q["q"]))
+    lines.append("")
+    lines.append("/-- Did the translator recognise each of the three shapes?  When not, the switch above has its pessimistic")
+    lines.append("    value (so that everything still elaborates and the dynamic search runs) and the table theorem")
+    lines.append("    `tree_watch_list_recognised` refuses.%s -/" % ("" if q["recognised"] else "  NOT RECOGNISED: " + "; ".join(q["notes"]).replace("-/", "- /")))
+    lines.append("def watchQRecognised : Bool := %s" % ("true" if q["recognised"] else "false"))
     lines += ["", "end Ferrous.Gen", ""]
     return "\n".join(lines)
